@@ -84,6 +84,7 @@ PROPS = {
             {"stream": "fmt", "families": "relayout", "quick": 6250, "thorough": 40000, "binding": ["pre", "out", "*"], "args": {"oracles": "c06"}},
             # ParserKindsOnly: the Lean model of the parser reads token kinds (and line-break flags, used inside asm blocks only) and nothing else
             {"stream": "pfull", "name": "parser", "families": "layout,grammar,seeds_sample,regions", "quick": 7500, "thorough": 30000, "binding": ["pk", "pl", "*"]},
+            {"stream": "full", "name": "pairs_full", "families": "relayout", "quick": 2500, "thorough": 20000, "binding": ["out", "out2", "*"]},
             # WrapDeterministic: the model of the search reads kinds, lengths, lines and settings, nothing of the original layout
             {"stream": "wsearch", "name": "search", "families": "layout,grammar,seeds_sample,regions,marked", "quick": 5000, "thorough": 30000, "binding": ["ws", "wp", "wcn", "*"]},
             {"stream": "fmt", "name": "pairs", "families": "pairs", "quick": 30000, "thorough": 200000, "binding": ["pre", "*"], "args": {}},
